@@ -241,15 +241,15 @@ def run(ctx):
             # ---- the ancestors themselves: node(k), doc, parent are the nodes of *this* root that contain the position
             # (compared by value; the tree walk gives the expected chain)
             def ancestors():
-                r = d.resolve(pos)
-                return [r.node(k) for k in range(r.depth + 1)], r.doc, r.parent
+                r, r2 = d.resolve(pos), d.resolve_no_cache(pos)
+                return [r.node(k) for k in range(r.depth + 1)], r.doc, r.parent, (r.pos, r.path, r.parent_offset), (r2.pos, r2.path, r2.parent_offset)
             sta, got_anc = outcome(ancestors)
             ctx.count("ancestor_checks")
             enc_anc = None
             if sta != "ok":
                 ctx.violation("resolve-raises", f"node(depth)/doc/parent raised {got_anc}", replay)
             else:
-                nodes, rdoc, rparent = got_anc
+                nodes, rdoc, rparent, with_cache, without_cache = got_anc
                 exp_chain = expected_ancestors(d, pos, R.sizes)
                 def same(a, b):
                     if a is b:
@@ -271,6 +271,9 @@ def run(ctx):
                         badn = "doc is not the queried root"
                     if badn is None and not same(rparent, exp_chain[-1]):
                         badn = "parent is not the innermost ancestor"
+                    if badn is None and not (with_cache[0] == without_cache[0] and with_cache[2] == without_cache[2] and len(with_cache[1]) == len(without_cache[1])
+                                             and all(a == b if isinstance(a, int) or isinstance(b, int) else same(a, b) for a, b in zip(with_cache[1], without_cache[1]))):
+                        badn = "resolve() and resolve_no_cache() give different positions"
                 if badn:
                     ctx.violation("resolve-ancestors", "the ancestors a resolved position reports are not the nodes of the queried document around it: " + badn, replay)
                 try:
